@@ -27,8 +27,9 @@
 //!        I<id>:<prev>:<next>:<right>:<left>[@<p1+p2…>],…       interior; every cell (= divider) with its left child
 //!        O<id>:<next>                                           overflow-shaped page (chain link or free page)
 //!        B<id>                                                  unreadable / malformed
-//!      R lists the roots that count: meta table, meta index, and every physical catalog row that owns a tree (see
-//!      `Observer::step`); a root is followed by `c` if the row's creator was rolled back and by `d` if its deleter was.
+//!      R lists the roots: meta table, meta index, and the root named by every physical row of the meta table (a dropped
+//!      relation keeps its tree until VACUUM removes its row); a root is followed by `c` if the row's creator was rolled back
+//!      and by `d` if its deleter was.
 //!      X=<n> (only when n > 0): number of dividers that carry an overflow pointer.
 //!      N=<root,…>: the roots of the trees with numeric keys; K<id>:<k1>,<k2>,… the keys of all cells of page <id> of such a tree
 //!      (`K<id>:!` = the page has no numeric keys any more): the judge also runs C10's `checkTree` on these trees.
@@ -506,19 +507,19 @@ impl Observer {
             Ok(r) => r,
             Err(e) => return format!("D=Ecatalog:{}", e.split(':').next().unwrap_or("?")),
         };
-        // Which catalog rows own a tree (physical rows of the meta table, whatever their visibility):
-        //   no deleter                      -> yes (mark `c` if the creator was rolled back: garbage that VACUUM must free)
-        //   deleter, creator rolled back    -> no  (invisible garbage whose tree a DROP has freed)
-        //   deleter rolled back             -> yes, mark `d` (a visible relation; its DROP freed the pages all the same)
-        //   deleter committed / in progress -> no  (the DROP freed the pages)
+        // Every physical row of the meta table owns the tree it names, whatever its visibility: DROP only marks the row deleted
+        // and VACUUM releases the tree when it removes the row (mark `c`: the row's creator was rolled back, `d`: its deleter
+        // was rolled back — informational).
         let mut counted: Vec<(u64, &'static str)> = Vec::new();
         for r in &roots {
-            match r.xmax {
-                None => counted.push((r.root, if r.xmin_aborted { "c" } else { "" })),
-                Some(_) if r.xmin_aborted => {}
-                Some(_) if r.xmax_aborted => counted.push((r.root, "d")),
-                Some(_) => {}
-            }
+            let mark = if r.xmax_aborted {
+                "d"
+            } else if r.xmin_aborted {
+                "c"
+            } else {
+                ""
+            };
+            counted.push((r.root, mark));
         }
         // key kind per tree: tables and the meta table are keyed by a BigUInt row id, the meta index by name, an index by its column
         let kind_of = |root: u64| -> KeyKind {
@@ -803,11 +804,11 @@ struct TableSim {
 /// What a family of SQL histories may contain. Exactly one *region* per history:
 ///   clean     rows of at most 64 bytes, at most 2 tables and 1 index alive, VACUUM at least every ~14 row operations (the catalog
 ///             row of a table gains one version per INSERT; un-vacuumed it outgrows a third of a page after ~30 inserts and gets an
-///             overflow chain of its own), a row is updated at most twice between two VACUUMs, no DDL inside a session that is
-///             rolled back. No known finding applies: any failure is a violation.
+///             overflow chain of its own), a row is updated at most twice between two VACUUMs. Family `ovf`: rows up to 6 pages in
+///             tables that hold at most 2 cells (overflow chains, never a divider). Family `ddlrb`: CREATE / DROP inside sessions
+///             that are rolled back. No known finding applies: any failure is a violation.
 ///   bigcell   rows from 10 bytes to several pages (overflow chains in user tables; KF-C11-divider-shares-chain and its damage)
 ///   bigcat    small rows, but many relations / long stretches without VACUUM: the *catalog* rows overflow (same findings)
-///   ddlrb     small rows, CREATE / DROP inside sessions that are rolled back (KF-C11-drop-not-transactional, KF-C11-vacuum-leaks-aborted-create)
 struct Plan {
     region: &'static str,
     family: &'static str,
@@ -869,6 +870,12 @@ fn plan_for(region: &'static str, family: &'static str) -> Plan {
             p.churn = true;
         }
     }
+    if family == "ddlrb" {
+        p.sessions = true;
+        p.ddl_in_sessions = true;
+        p.ddl = true;
+        p.rollback_num = 3;
+    }
     match region {
         "bigcell" => {
             p.big_rows = true;
@@ -883,12 +890,6 @@ fn plan_for(region: &'static str, family: &'static str) -> Plan {
             p.vacuum_every = None;
             p.burst = 25;
             p.ddl = true;
-        }
-        "ddlrb" => {
-            p.sessions = true;
-            p.ddl_in_sessions = true;
-            p.ddl = true;
-            p.rollback_num = 3;
         }
         _ => {}
     }
@@ -1159,15 +1160,18 @@ impl Engine for PagerEngine {
         for i in 0..n_sql {
             // region split: 8 of every 11 histories are clean, then bigcell, bigcat, ddlrb (one region feature each)
             let region = match i % 11 {
-                0..=7 => "clean",
                 8 => "bigcell",
                 9 => "bigcat",
-                _ => "ddlrb",
+                _ => "clean",
             };
-            // family `ovf` (large rows in tables that never split) exists only in the clean region
+            // family `ovf` (large rows in tables that never split) exists only in the clean region; every 11th history is of
+            // family `ddlrb` (CREATE / DROP inside sessions that are rolled back)
             let mut family = families[(i / 11 + i % 11) % families.len()];
             if family == "ovf" && region != "clean" {
                 family = "mixed";
+            }
+            if i % 11 == 10 {
+                family = "ddlrb";
             }
             let plan = plan_for(region, family);
             let n_ops = match i % 3 {
